@@ -145,13 +145,40 @@ Proof. exact handler_invariants. Qed.
 Theorem C16_handler_fresh :
   forall (lim tl : N) (pre : list req) (q : req) (post : list req) (p : resp),
     nth_error (fst (hrun (empty lim tl) (pre ++ q :: post))) (length pre) = Some p ->
-    p = mkResp (q_fs q) (q_mime q) false \/
+    p = mkResp (q_fs q) (q_mime q) false (blen (q_fs q) <=? lim) \/
     (p_cached p = true /\
      exists pre1 q' pre2, pre = pre1 ++ q' :: pre2 /\
        q_route q' = q_route q /\ q_host q' = q_host q /\
        p_body p = q_fs q' /\ p_mime p = q_mime q' /\
        q_now q' <= q_now q /\ q_now q - q_now q' <= tl).
 Proof. exact handler_fresh. Qed.
+
+(* sharper, in step form: after ANY request history `pre`, a request q answered from the cache gets exactly the
+   contents and MIME type read by the most recent request for the same (route, host) that stored (q' — which was
+   itself answered from the file system), no longer ago than the time limit; every request for that key since then
+   stored nothing (it was answered from the cache, or its file did not fit), and a hit leaves the cache unchanged.
+   `combine pre ps` pairs every earlier request with its response. *)
+Theorem C16_handler_hit_is_latest_stored :
+  forall (lim tl : N) (pre : list req) (ps : list resp) (c1 : cache) (q : req) (c2 : cache) (p : resp),
+    hrun (empty lim tl) pre = (ps, Ok c1) ->
+    handle c1 q = Ok (c2, p) ->
+    p_cached p = true ->
+    exists a1 q' a2,
+      combine pre ps = a1 ++ (q', mkResp (q_fs q') (q_mime q') false true) :: a2 /\
+      req_key q' = req_key q /\
+      p = mkResp (q_fs q') (q_mime q') true false /\
+      q_now q' <= q_now q /\ q_now q - q_now q' <= tl /\
+      Forall (same_key_not_stored (req_key q)) a2 /\
+      c2 = c1.
+Proof. exact handler_hit_is_latest_stored. Qed.
+
+(* the step form covers every request of every history: response number |pre| is the handler's answer in the state
+   reached after `pre` *)
+Theorem C16_handler_response_is_step :
+  forall (c : cache) (pre : list req) (q : req) (post : list req) (p : resp),
+    nth_error (fst (hrun c (pre ++ q :: post))) (length pre) = Some p ->
+    exists ps c1 c2, hrun c pre = (ps, Ok c1) /\ handle c1 q = Ok (c2, p).
+Proof. exact hrun_nth. Qed.
 
 (* ---- non-vacuity: concrete histories ---- *)
 Definition kA : list N := [47; 97].        (* "/a" *)
@@ -172,7 +199,7 @@ Example C16_example_hypotheses :
   Forall (op_ok 5) [OSet kA 0 [1;2;3] 3 10; OSet kB 0 [4;5;6] 4 10; OGet kA 0 10] /\
   mono 0 [OSet kA 0 [1;2;3] 3 10; OSet kB 0 [4;5;6] 4 10; OGet kA 0 10] /\
   hrun (empty 5 1) [mkReq kA 0 [1;2] 3 10; mkReq kA 0 [9;9] 3 11; mkReq kA 0 [9;9] 3 12; mkReq kA 0 [1;2;3;4;5;6] 3 14]
-  = ([mkResp [1;2] 3 false; mkResp [1;2] 3 true; mkResp [9;9] 3 false; mkResp [1;2;3;4;5;6] 3 false],
+  = ([mkResp [1;2] 3 false true; mkResp [1;2] 3 true false; mkResp [9;9] 3 false true; mkResp [1;2;3;4;5;6] 3 false false],
      Ok (mkCache 5 1 2 [mkItem kA 0 3 12 [9;9]])).
 Proof.
   split; [repeat constructor; vm_compute; discriminate|].
@@ -208,6 +235,8 @@ Print Assumptions C16_handler_trace_guarded.
 Print Assumptions C16_handler_no_crash.
 Print Assumptions C16_handler_invariants.
 Print Assumptions C16_handler_fresh.
+Print Assumptions C16_handler_hit_is_latest_stored.
+Print Assumptions C16_handler_response_is_step.
 Print Assumptions C16_example_history.
 Print Assumptions C16_example_hypotheses.
 Print Assumptions C16_example_crashes.
